@@ -4,6 +4,7 @@ import (
 	"calcsa/engines/enc"
 	"calcsa/engines/lexfsm"
 	"calcsa/engines/own"
+	"calcsa/engines/pipeline"
 	"calcsa/engines/txn"
 	"calcsa/engines/valtab"
 	"calcsa/engines/vmshape"
@@ -17,6 +18,8 @@ func init() {
 	engineKinds["enc"] = "bit-field decomposition of the symbolically evaluated encoder / decoder functions; writer and reader compared field by field"
 	RegisterEngine(&Engine{Name: "own", Run: own.Run})
 	engineKinds["own"] = "symbolic effects of every memory.Type method (fields, element stores, results) compared with the frame layout, growth and ownership rules"
+	RegisterEngine(&Engine{Name: "pipeline", Run: pipeline.Run})
+	engineKinds["pipeline"] = "must-pass-through and provenance rules on the drivers' SSA; node.Loop interpreted abstractly for two reads"
 	RegisterEngine(&Engine{Name: "txn", Run: txn.Run})
 	engineKinds["txn"] = "typestate of Snapshot/Rollback/Commit on every path of every combinator closure against an abstract input; symbolic effect of the TLexer primitives"
 	RegisterEngine(&Engine{Name: "valtab", Run: valtab.Run})
@@ -105,6 +108,19 @@ func init() {
 		Technique:  "symbolic effects of the VM handlers and of the value operators; the result expressions show whether a payload is cloned before it is appended to",
 		Decides:    "the Go-level condition: every place where a new array is built from an existing payload (ARR, array concatenation) appends to a clone, indexing and slicing only read, and no instruction handler stores into the data segment or into a payload. calc has no element assignment, so these are the only ways a value could change.",
 		NotDecided: "aliasing introduced through unsafe pointer arithmetic outside the payload accessors; the compiler's constant folding of array literals (B-rules).",
+	})
+	RegisterSpec(&Spec{
+		ID: "C16", Title: "All three run modes execute the same program the same way",
+		Rules: []RuleRef{
+			{"pipeline", "P1", 2, "in every mode nothing is rewritten, compiled or run while the parse error is non-nil"},
+			{"pipeline", "P2", 4, "in every mode every statement of the parse result goes through STRewrite(empty table) -> ByteCode* -> Run"},
+			{"pipeline", "P3", 2, "a script line is never dropped: the reader returns whole lines of any length and a last line without line break is processed"},
+			{"pipeline", "P4b", 1, "statement boundaries are computed on exactly the text that is handed to the parser"},
+			{"pipeline", "P4", 1, "statement boundaries respect lexical context (strings, comments)"},
+		},
+		Technique:  "must-pass-through / provenance rules on the SSA of the three drivers; abstract interpretation of node.Loop over two reads",
+		Decides:    "that -eval, REPL and script mode run the same Parse -> STRewrite -> ByteCode -> Run chain over every statement of the parse result and nothing after a parse error; that the script reader loses no line (length, missing final line break); that the boundary heuristic counts on the text it parses.",
+		NotDecided: "equality of output between modes; that the boundary heuristic splits a script exactly as the grammar would (it does not: known finding D20).",
 	})
 	RegisterSpec(&Spec{
 		ID: "C19", Title: "Runtime error reports point at the real failure",
